@@ -1,0 +1,25 @@
+//go:build verif
+
+package account
+
+import (
+	atypes "github.com/rigochain/rigo-go/ctrlers/types"
+	"github.com/rigochain/rigo-go/types/xerrors"
+)
+
+// VerifAccountsAt returns every account committed at `height` (read-only; verification harness).
+func (ctrler *AcctCtrler) VerifAccountsAt(height int64) ([]*atypes.Account, xerrors.XError) {
+	ctrler.mtx.RLock()
+	defer ctrler.mtx.RUnlock()
+
+	immu, xerr := ctrler.acctLedger.ImmutableLedgerAt(height, 0)
+	if xerr != nil {
+		return nil, xerr
+	}
+	var ret []*atypes.Account
+	xerr = immu.IterateReadAllItems(func(a *atypes.Account) xerrors.XError {
+		ret = append(ret, a)
+		return nil
+	})
+	return ret, xerr
+}
